@@ -456,7 +456,7 @@ func (e *env) observeLabelCalls(ctx context.Context, c Case, p *pooled, want ans
 	seen := map[uint64]bool{}
 	for _, lm := range combos {
 		n := lm[0]
-		if seen[n] {
+		if seen[n] || n == 0 || n > uint64(len(want)) { // the limits at or below the number of matching series: 1, true-1, true
 			continue
 		}
 		seen[n] = true
